@@ -1,5 +1,6 @@
 import Iec.Lemmas.Srv104
 import Iec.Lemmas.MsgQueue
+import Iec.Lemmas.MsgQueueRetain
 import Iec.Gen.Consts104
 /-
 C06 — Server event buffer: no loss, kept until acknowledged, resent after reconnect.
@@ -34,7 +35,12 @@ to back from `first` to `lastInBuffer`, `low` back to back from offset 0 below `
 * `rearm_after_connection_loss`  setWaitingForTransmissionWhenNotConfirmed terminates and turns exactly the
                               sent-but-unconfirmed entries back into waiting ones; `confirmed_stays_confirmed`
 
-plus the entry-level laws below.  NOT proved: N-retention, validity of stale references in markAsduAsConfirmed
+* `retains_N_most_recent`     a queue created for N entries, fed any number of ASDUs of one size (1..250 octets), always
+                              holds at least min(number fed, N) entries, and they are the most recent ones in order
+                              (Lemmas/MsgQueueRetain.lean: on the grid of equal sizes a new entry displaces at most one old
+                              entry, and only when the ring is full)
+
+plus the entry-level laws below.  NOT proved: validity of stale references in markAsduAsConfirmed
 (the id window), and the coupling with the k-buffer; those rest on the correspondence run (real ring - pointers, every entry's id / state / size in
 FIFO order - compared with the model after every operation, queue sizes 1..40) and the duplicate / order
 oracle of the harness.  The invariant is established by `MsgQueue.create` and re-established by the three
@@ -220,6 +226,47 @@ theorem create_inv (n : Nat) : MqInv (MsgQueue.create n) [] [] :=
 
 /-- non-vacuity: two enqueues into a fresh one-entry ring are kept in order with consecutive ids -/
 example : (((MsgQueue.create 1).enqueue [1, 1, 1]).enqueue [2, 2]).toList.map (·.id) = [1, 2] := by decide
+
+/-- **C06, a queue for N entries retains the N most recent ASDUs of equal size.** For every N >= 1, every size 1..250 and
+every number of enqueues into a freshly created queue: the queue holds at least min(enqueued, N) entries, and what it holds
+is exactly the most recent `count` ASDUs, octet for octet, oldest first. -/
+theorem retains_N_most_recent (N L : Nat) (hN : 1 ≤ N) (hL : L ≤ 250) (ds : List (List Nat)) (hds : ∀ d ∈ ds, d.length = L) :
+    min ds.length N ≤ (enqueueAll (MsgQueue.create N) ds).count ∧
+    (enqueueAll (MsgQueue.create N) ds).toList.map (·.data) = ds.drop (ds.length - (enqueueAll (MsgQueue.create N) ds).count) := by
+  have hsize : (MsgQueue.create N).size = N * 272 := rfl
+  have hc := enqueueAll_count N L hN hL ds (MsgQueue.create N) [] [] (create_inv N) (by simp) hsize
+    ⟨Nat.dvd_zero _, fun h => absurd h (Nat.lt_irrefl 0)⟩ hds
+  have hc' : min ds.length N ≤ (enqueueAll (MsgQueue.create N) ds).count := by
+    have : (MsgQueue.create N).count = 0 := rfl
+    rw [this, Nat.zero_add] at hc; exact hc
+  refine ⟨hc', ?_⟩
+  have hs266 : 266 ≤ (MsgQueue.create N).size := by
+    rw [hsize]
+    calc 266 ≤ 1 * 272 := by decide
+      _ ≤ N * 272 := Nat.mul_le_mul_right _ hN
+  obtain ⟨up', low', k, hinv, hcont⟩ := enqueueAll_refines ds (MsgQueue.create N) [] [] (create_inv N)
+    (fun d hd => by rw [hds d hd]; exact hL) hs266
+  rw [toList_eq _ up' low' hinv]
+  have hdata : (MqInv.abs up' low').map (·.data) = (content up' low').map Prod.snd := by
+    simp [MqInv.abs, content, List.map_map, Function.comp_def]
+  have hcnt : (enqueueAll (MsgQueue.create N) ds).count = (content up' low').length := by
+    rw [hinv.count]; simp [content]
+  rw [hdata, hcnt, hcont]
+  simp only [content, List.append_nil, List.map_nil, List.nil_append, List.map_drop, List.map_map, List.length_drop, List.length_map]
+  have hid : (Prod.snd ∘ fun d : List Nat => (1, d)) = id := rfl
+  rw [hid, List.map_id]
+  by_cases hk : k ≤ ds.length
+  · have : ds.length - (ds.length - k) = k := by omega
+    rw [this]
+  · have h0 : ds.length - k = 0 := by omega
+    rw [h0, Nat.sub_zero, List.drop_of_length_le (by omega), List.drop_of_length_le (Nat.le_refl _)]
+
+/-- non-vacuity: five 3-octet ASDUs into a queue for two entries - at least the two most recent are held (here: all five,
+the ring is dimensioned for 256-octet entries) -/
+example : ((enqueueAll (MsgQueue.create 2) [[1,1,1],[2,2,2],[3,3,3],[4,4,4],[5,5,5]]).toList.map (·.data)) = [[1,1,1],[2,2,2],[3,3,3],[4,4,4],[5,5,5]] := by decide
+set_option maxRecDepth 10000 in
+/-- with 200-octet ASDUs a queue for one entry holds exactly the most recent one -/
+example : ((enqueueAll (MsgQueue.create 1) [List.replicate 200 1, List.replicate 200 2, List.replicate 200 3]).toList.map (·.data.headD 0)) = [3] := by decide
 
 /-! ### the ring geometry of the model is the one the compiled source has (translator tie, regenerated on every run) -/
 
